@@ -69,8 +69,14 @@ func (r *Runner) RunProgram(tool string, foiArgs []string, files []SrcFile, link
 	}
 	args := append([]string{}, foiArgs...)
 	for _, f := range files {
-		if err := os.WriteFile(filepath.Join(dir, f.Name), []byte(f.Content), 0o644); err != nil {
+		// @PKG@ stands for the import path of the program's own directory
+		content := strings.ReplaceAll(f.Content, "@PKG@", "work/"+name)
+		os.MkdirAll(filepath.Dir(filepath.Join(dir, f.Name)), 0o755)
+		if err := os.WriteFile(filepath.Join(dir, f.Name), []byte(content), 0o644); err != nil {
 			return ProgResult{}, err
+		}
+		if strings.Contains(f.Name, "/") {
+			continue // a file of a sibling package: not an argument of the transpiler
 		}
 		if strings.HasSuffix(f.Name, ".fo") || strings.HasSuffix(f.Name, ".foi") {
 			args = append(args, f.Name)
